@@ -32,11 +32,15 @@ FILES = {
     ),
     "dp/target.py": "class Far:\n    '''original text of Far'''\n    x = 1\ndef far_func():\n    '''original text of far_func'''\n",
     "dp/zsetter.py": "from dp import target\nfrom dp.target import far_func\ntarget.Far.__doc__ = 'replaced text of Far'\nfar_func.__doc__ = 'replaced text of far_func'\n",
+    # the module that assigns is analysed BEFORE the module it reaches through `from package import module`
+    "dp/ztarget.py": "class Late:\n    'original text of Late'\n    def m(self):\n        'original text of Late.m'\ndef late_func():\n    'original text of late_func'\n",
+    "dp/asetter.py": ("from dp import ztarget\nfrom . import ztarget as zt\nztarget.Late.__doc__ = 'replaced text of Late'\n"
+                      "zt.late_func.__doc__ = 'replaced text of late_func'\nztarget.Late.m.__doc__ = 'replaced text of Late.m'\n"),
 }
 ORACLE = ("import sys, json, importlib, inspect; sys.path.insert(0, sys.argv[1])\n"
-          "import dp.own, dp.target, dp.zsetter\n"
+          "import dp.own, dp.target, dp.zsetter, dp.ztarget, dp.asetter\n"
           "out = {}\n"
-          "for m in (dp.own, dp.target):\n"
+          "for m in (dp.own, dp.target, dp.ztarget):\n"
           "    for n, v in vars(m).items():\n"
           "        if n.startswith('_') or getattr(v, '__module__', None) != m.__name__: continue\n"
           "        out[m.__name__ + '.' + n] = inspect.getdoc(v)\n"
@@ -266,6 +270,44 @@ def check_assignment_targets(scratch: Path) -> List[Dict[str, Any]]:
     return out
 
 
+ASYNC_SRC = ("from typing import overload, Awaitable\n"
+             "@overload\nasync def fetch(a: int) -> int: ...\n@overload\nasync def fetch(a: str) -> str: ...\ndef fetch(a):\n    'sync implementation returning an awaitable'\n"
+             "@overload\ndef send(a: int) -> int: ...\n@overload\ndef send(a: str) -> str: ...\nasync def send(a):\n    'async implementation'\n"
+             "async def plain_co():\n    'a coroutine'\ndef plain():\n    'a function'\n"
+             "class Client:\n    'doc'\n    @overload\n    async def get(self, a: int) -> int: ...\n    @overload\n    async def get(self, a: str) -> str: ...\n"
+             "    def get(self, a):\n        'sync'\n    async def post(self):\n        'co'\n    def put(self):\n        'fn'\n"
+             "    async def twice(self):\n        'first, async'\n    def twice(self):\n        'second, sync'\n")
+_ASYNC_ORACLE = ("import sys, json, inspect, importlib; sys.path.insert(0, sys.argv[1]); m = importlib.import_module(sys.argv[2]); out = {}\n"
+                 "for n, v in vars(m).items():\n"
+                 "    if inspect.isfunction(v) and v.__module__ == m.__name__: out[n] = inspect.iscoroutinefunction(v)\n"
+                 "    if inspect.isclass(v) and v.__module__ == m.__name__:\n"
+                 "        for k, w in vars(v).items():\n"
+                 "            if inspect.isfunction(w): out[n + '.' + k] = inspect.iscoroutinefunction(w)\n"
+                 "print(json.dumps(out))")
+
+
+def check_async_kinds(scratch: Path) -> List[Dict[str, Any]]:
+    """Coroutine or not: what the interpreter says of the function finally bound to the name (inspect.iscoroutinefunction), also
+       when `async def` overload stubs precede a plain implementation (or the reverse) and when a name is defined twice."""
+    from pydoctor import model
+    base = scratch / "asynckinds"
+    base.mkdir(parents=True)
+    (base / "asyncmod.py").write_text(ASYNC_SRC)
+    r = subprocess.run([sys.executable, "-I", "-c", _ASYNC_ORACLE, str(base), "asyncmod"], capture_output=True, text=True, timeout=60)
+    if r.returncode != 0:
+        raise RuntimeError("coroutine oracle failed: " + r.stderr[-400:])
+    want = json.loads(r.stdout)
+    b = P.build_sources(paths=[base / "asyncmod.py"], record_states=False)
+    out: List[Dict[str, Any]] = []
+    for name, co in sorted(want.items()):
+        o = b["system"].allobjects.get("asyncmod." + name)
+        if not isinstance(o, model.Function):
+            out.append({"object": name, "expected": co, "got": None, "what": "coroutine kind: missing function"})
+        elif bool(o.is_async) != co:
+            out.append({"object": name, "expected": co, "got": bool(o.is_async), "what": "coroutine kind"})
+    return out
+
+
 def rendered_text(obj: Any) -> str:
     """The text of the docstring as the pages show it (parsed docstring -> stan -> flattened, tags removed)."""
     import re
@@ -300,4 +342,4 @@ def check(scratch: Path) -> List[Dict[str, Any]]:
             shown = rendered_text(o)
             if doc not in shown:
                 out.append({"object": name, "expected": doc, "got": shown[:200], "what": "docstring as rendered"})
-    return out + check_fields(scratch) + check_overload_neighbours(scratch) + check_rebuild_history(scratch) + check_statics(scratch) + check_blank_docstrings(scratch) + check_assignment_targets(scratch)
+    return out + check_fields(scratch) + check_overload_neighbours(scratch) + check_rebuild_history(scratch) + check_statics(scratch) + check_blank_docstrings(scratch) + check_assignment_targets(scratch) + check_async_kinds(scratch)
